@@ -96,7 +96,13 @@ ANALOG_PIN_RE = re.compile(r"^A\d+$")
 def _escape_string_literal(value: str) -> str:
     """Escape a Python string literal into a C/C++ literal body."""
 
-    return value.replace("\\", "\\\\").replace('"', '\\"')
+    escaped = value.replace("\\", "\\\\").replace('"', '\\"')
+    # control characters would otherwise end up raw inside the C++ literal
+    return (
+        escaped.replace("\n", "\\n")
+        .replace("\r", "\\r")
+        .replace("\t", "\\t")
+    )
 
 
 class _ExprStr(str):
